@@ -919,6 +919,10 @@ type dxRecorder struct {
 	view    map[string]map[uint32]dxAttrs
 	// violations of the add-path id discipline seen while recording
 	idErrors []string
+	// hook, when set, is called on every announcement/withdrawal with the path
+	// object the Adj-RIB-Out handed over (on announcements: the stored object).
+	// It runs with the Adj-RIB-Out's (and often the Loc-RIB's) lock held: no Dump in there.
+	hook func(add bool, pfx *bnet.Prefix, p *route.Path)
 }
 
 func newDxRecorder(addPath bool) *dxRecorder {
@@ -926,6 +930,9 @@ func newDxRecorder(addPath bool) *dxRecorder {
 }
 
 func (r *dxRecorder) AddPath(pfx *bnet.Prefix, p *route.Path) error {
+	if r.hook != nil {
+		r.hook(true, pfx, p)
+	}
 	a := dxFromReal(p)
 	id := uint32(0)
 	if p.BGPPath != nil {
@@ -948,6 +955,9 @@ func (r *dxRecorder) AddPath(pfx *bnet.Prefix, p *route.Path) error {
 }
 
 func (r *dxRecorder) RemovePath(pfx *bnet.Prefix, p *route.Path) bool {
+	if r.hook != nil {
+		r.hook(false, pfx, p)
+	}
 	a := dxFromReal(p)
 	id := uint32(0)
 	if p.BGPPath != nil {
